@@ -11,9 +11,11 @@
 3. Decision: model_vs_impl; impl_vs_oracle (optimizer on vs off, vs python filter of the unfiltered
    query; storage scan with range vs unfiltered scan + python filter); model_vs_oracle.
 """
+import fractions
 import collections
 import json
 import os
+import re
 
 import vlib
 from checks.c12 import (PRECEDENCE, Tally, run_translators, attributed_sigs, run_counterfactuals, model_search, impl_search, bag, case_queries, case_sql, corpus_lines, field, finish_reports,
@@ -127,10 +129,15 @@ def judge_case13(r, T):
         T.corr.append(("protocol", "case %d: %d queries, %d answers, %d results" % (cid, len(qs), len(answers), len(results)), {"case": r["line"]}))
         return
     byq = collections.defaultdict(dict)
+    mixed = []
     for q, a, res in zip(qs, answers, results):
-        byq[q["qid"]][q["kind"]] = (q, a, res)
+        if q["kind"] in ("X", "XU"):
+            mixed.append((q, a, res))
+        else:
+            byq[q["qid"]][q["kind"]] = (q, a, res)
     for qid, g in sorted(byq.items()):
         judge_query13(r, T, qid, g, nrs)
+    judge_mixed13(r, T, mixed, nrs)
     # storage level
     scans_i = field(obs, "scans") or []
     scans_c = field(c, "scans") or []
@@ -184,6 +191,124 @@ def judge_case13(r, T):
                                    {"case": r["line"], "scan": sreq, "impl": si, "want": want, "tags": tags, "attributed": sigs}))
         elif got:
             T.nontrivial.add((cid, str(sreq)))
+
+# --- key ranges whose bounds mix constant types -------------------------------------------------
+
+_LIT = r"(null|'-?\d+'|cast\(-?\d+ as (?:bigint|smallint)\)|-?\d+\.\d+|-?\d+)"
+_OPS = r"(>=|<=|=|>|<)"
+
+
+def mixed_lit(tok):
+    """(type, value): value a Fraction, None for NULL, 'str' for a string literal"""
+    if tok == "null":
+        return ("null", None)
+    if tok.startswith("'"):
+        return ("string", "str")
+    m = re.fullmatch(r"cast\((-?\d+) as (bigint|smallint)\)", tok)
+    if m:
+        return (m.group(2), fractions.Fraction(int(m.group(1))))
+    if "." in tok:
+        return ("decimal", fractions.Fraction(tok))
+    n = int(tok)
+    return ("int" if -2 ** 31 <= n < 2 ** 31 else "bigint", fractions.Fraction(n))
+
+
+def mixed_where(sql):
+    """WHERE clause of a kind-X statement -> list of (op, constant token) meaning `key op constant`"""
+    w = sql.split(" where ", 1)[1].split(" order by ")[0]
+    atoms = []
+    flip = {">=": "<=", "<=": ">=", ">": "<", "<": ">", "=": "="}
+    pos = 0
+    pat = re.compile(r"\s*(?:and\s+)?(?:(c\d+) between %s and %s|(c\d+) %s %s|%s %s (c\d+))" % (_LIT, _LIT, _OPS, _LIT, _LIT, _OPS))
+    while pos < len(w):
+        m = pat.match(w, pos)
+        if not m:
+            raise ValueError("cannot read the WHERE clause: " + w)
+        g = m.groups()
+        if g[0]:
+            atoms += [(">=", g[1]), ("<=", g[2])]
+        elif g[3]:
+            atoms.append((g[4], g[5]))
+        else:
+            atoms.append((flip[g[7]], g[6]))
+        pos = m.end()
+    return atoms
+
+
+def mixed_truth(atoms, key):
+    """True / False; None when a string literal takes part (no python semantics claimed)"""
+    res = True
+    for op, tok in atoms:
+        ty, c = mixed_lit(tok)
+        if c == "str":
+            return None
+        if key == "null" or c is None:
+            res = False
+            continue
+        v = fractions.Fraction(int(key.split(":")[1]))
+        if not holds(op, (v > c) - (v < c)):
+            res = False
+    return res
+
+
+def judge_mixed13(r, T, mixed, nrs):
+    cid = r["id"]
+    xu = [m for m in mixed if m[0]["kind"] == "XU"]
+    if not xu:
+        return
+    qU, _, rU = xu[0]
+    full = out_rows(field(rU, "on")[0])
+    if full is None:
+        T.findings.append(("unexplained:unfiltered-query-failed", "case %d: %s failed" % (cid, qU["sql"]), {"case": r["line"], "sql": qU["sql"]}))
+        return
+    kp = qU["keypos"][0]
+    for q, a, res in mixed:
+        if q["kind"] != "X":
+            continue
+        sql = q["sql"]
+        atoms = mixed_where(sql)
+        types = sorted(set(mixed_lit(t)[0] for _, t in atoms))
+        T.dist["mixed bounds: " + "/".join(types)] += 1
+        on = out_rows(field(res, "on")[0])
+        off = out_rows(field(res, "off")[0])
+        truths = [mixed_truth(atoms, row[kp]) for row in full]
+        if any(t is None for t in truths):
+            # string literal against an integer key: the unoptimized plan (filter above the full
+            # scan) is the reference
+            T.dist["mixed bounds: reference = unoptimized plan"] += 1
+            if off is None:
+                # (a statement that fails either way, or fails unoptimized and returns nothing
+                # optimized because the pushed INT part is empty, is not judged)
+                if on:
+                    T.ivo["compared"] += 1
+                    T.ivo["disagree"] += 1
+                    T.findings.append(("unexplained:mixed-bounds-on",
+                                       "%s returns %d rows, the unoptimized plan (filter above the full scan) fails: the comparison with the string literal was not evaluated (case %d, %d row-sets; bounds of type %s)" % (
+                                           sql, len(on), cid, nrs, "/".join(types)),
+                                       {"case": r["line"], "qid": q["qid"], "sql": sql, "impl": on, "want": "error"}))
+                continue
+            want = bag(tuple(x) for x in off)
+        else:
+            want = bag(tuple(row) for row, t in zip(full, truths) if t)
+        for which, impl in (("on", on), ("off", off)):
+            text = sql + (" [optimizer off]" if which == "off" else "")
+            T.ivo["compared"] += 1
+            got = None if impl is None else bag(tuple(x) for x in impl)
+            if got != want:
+                T.ivo["disagree"] += 1
+                T.findings.append(("unexplained:mixed-bounds-" + which,
+                                   "%s returns %s rows, the filter of the full scan gives %d (case %d, %d row-sets; bounds of type %s)" % (
+                                       text, "no (statement failed)" if got is None else sum(got.values()), sum(want.values()), cid, nrs, "/".join(types)),
+                                   {"case": r["line"], "qid": q["qid"], "sql": text, "impl": impl, "want": sorted(want.elements())}))
+            elif impl and which == "on":
+                T.nontrivial.add((cid, sql))
+            if impl is not None and " order by " in sql:
+                keys_i = [row[kp] for row in impl]
+                T.ivo["compared"] += 1
+                if keys_i != sorted(keys_i, key=vkey):
+                    T.ivo["disagree"] += 1
+                    T.findings.append(("unexplained:order-" + which, "%s is not in key order: %s (case %d, %d row-sets)" % (text, keys_i[:12], cid, nrs),
+                                       {"case": r["line"], "qid": q["qid"], "sql": text, "impl": impl}))
 
 
 def judge_deletes13(r, T):
